@@ -101,12 +101,14 @@ pub fn e1_spec(id: &str, tier: &str) -> Option<Spec> {
                 let mut v = progs::quick_p3();
                 v.extend(progs::durq_set());
                 v.extend(c03_dur_structs());
+                v.extend(progs::backdate_chain());
                 v
             } else {
                 let mut v = progs::all_p3();
                 v.extend(progs::p4_set());
                 v.extend(progs::durq_set());
                 v.extend(c03_dur_structs());
+                v.extend(progs::backdate_chain());
                 v
             },
             depth: if quick { 4 } else { 5 },
